@@ -131,6 +131,10 @@ def worker_main(a):
                     mplan, mv, mres = plan, v, res
                 rec = dict(property=prop.pid, idx=idx, tag=tag, violation=dict(mv), plan=mplan, digest=mres.digest,
                            shape=prop.finding_shape(mplan, mv))
+                if tag == "s":
+                    # fall-back for violations that depend on state carried inside the worker's interpreter (object addresses,
+                    # allocator state, ...): the unminimised plan together with the runs that preceded it in this worker
+                    rec["prefix"] = dict(master=master, lo=a.lo, idx=idx, tier=a.tier, original_plan=plan, original_violation=dict(v))
                 os.makedirs(REPLAYS, exist_ok=True)
                 path = os.path.join(REPLAYS, f"{prop.pid}-{tag}{idx}-{master}.json")
                 with open(path, "w") as f:
@@ -195,8 +199,18 @@ def replay_main(a):
     with open(a.replay) as f:
         rec = json.load(f)
     plan = rec["plan"] if "plan" in rec else rec
-    res = prop.execute(plan)
     want = rec.get("violation")
+    if (a.with_prefix or rec.get("needs_prefix")) and rec.get("prefix"):
+        from . import prop as P
+        px = rec["prefix"]
+        for i in range(px["lo"], px["idx"]):
+            try:
+                prop.execute(prop.gen(P.run_seed(px["master"], prop.pid, i), px["tier"]))
+            except Exception:
+                pass
+        plan = px["original_plan"]
+        want = px["original_violation"]
+    res = prop.execute(plan)
     got = [dict(v) for v in res.violations]
     same = None
     if want is not None:
@@ -326,9 +340,9 @@ def parent_main(a):
     nviol = 0
     reported_known = set()
 
-    def confirm(path):
-        rp = subprocess.run([sys.executable, "-u", "-m", "ssesim", pid, "--replay", path], env=env, cwd=VERIF,
-                            capture_output=True, timeout=900)
+    def confirm(path, with_prefix=False):
+        rp = subprocess.run([sys.executable, "-u", "-m", "ssesim", pid, "--replay", path] + (["--with-prefix"] if with_prefix else []),
+                            env=env, cwd=VERIF, capture_output=True, timeout=1800)
         text = rp.stdout.decode(errors="replace")
         try:
             rep = json.loads(text[:text.rindex("}") + 1])
@@ -375,7 +389,26 @@ def parent_main(a):
                     break
                 errs.append(err)
             else:
-                harness_fail.extend(errs)
+                # nothing reproduces from a single plan: does the first record reproduce together with the runs that preceded it?
+                done = False
+                for v in others[:2]:
+                    with open(v["path"]) as f:
+                        rec = json.load(f)
+                    if rec.get("prefix") and confirm(v["path"], with_prefix=True) is None:
+                        rec["needs_prefix"] = True
+                        with open(v["path"], "w") as f:
+                            json.dump(rec, f, indent=1, sort_keys=True, default=str)
+                        cnt = sum(x["count"] for x in others)
+                        nviol += cnt
+                        exit_code = 1
+                        lines.append(f"VIOLATION property={pid} replay={v['path']}")
+                        lines.append(f"  class={list(cls)} occurrences={cnt} {v['detail']}")
+                        lines.append(f"  note: reproduces only after the {rec['prefix']['idx'] - rec['prefix']['lo']} runs that preceded it in its worker "
+                                     f"(state carried inside the interpreter, e.g. object addresses); the replay file replays those runs first")
+                        done = True
+                        break
+                if not done:
+                    harness_fail.extend(errs)
 
     wall = time.time() - t0
     total = agg["runs"] + agg["enum_runs"]
@@ -421,7 +454,9 @@ def parent_main(a):
     if harness_fail:
         for h in harness_fail[:10]:
             print("HARNESS-FAILURE:", h)
-        return 2
+        # a violation that was confirmed by replay stands (exit 1) whatever else went wrong; without one, a harness failure
+        # is never a verdict and never exit 0
+        return 1 if exit_code == 1 else 2
     return exit_code
 
 
@@ -434,6 +469,7 @@ def main(argv=None):
     ap.add_argument("--budget", type=float)
     ap.add_argument("--workers", type=int)
     ap.add_argument("--internal-worker", action="store_true")
+    ap.add_argument("--with-prefix", action="store_true")
     ap.add_argument("--det", action="store_true")
     ap.add_argument("--master", type=int, default=0)
     ap.add_argument("--wid", type=int, default=0)
